@@ -70,6 +70,21 @@ def proj_base(cx, a, n):
     return (a * nb + n) * nx
 
 
+def ps_replay_spec(model):
+    """native runs of the real PhaseSpace against the direct oracle: the counterexample's sizes (scaled up to a grid the
+    constructor accepts) and a few uneven multi-bunch configurations"""
+    def sm(key, lo, hi, d):
+        v = model.get(key)
+        return v if isinstance(v, int) and lo <= v <= hi else d
+    N = max(8, sm(PS_NX, 2, 64, 17))
+    nb = sm(PS_NB, 1, 5, 3)
+    runs = [['moments', N, nb, 1]]
+    for r in (['moments', 17, 3, 2], ['moments', 16, 2, 3], ['moments', 9, 4, 4], ['moments', 33, 1, 5]):
+        if r not in runs:
+            runs.append(r)
+    return {'harness': 'ps_replay', 'runs': runs}
+
+
 def _size_case(nx_, nb_):
     return lambda cx: [cx.f(PS_NX) == nx_, cx.f(PS_NY) == nx_, cx.f(PS_NB) == nb_]
 
@@ -79,6 +94,9 @@ class PSMethod(Contract):
     params = []
     # concrete sizes for the bounded re-check (used only after a loop obligation failed)
     bounded_cases = [_size_case(2, 1), _size_case(3, 2), _size_case(2, 3)]
+
+    def replay(self, o, model, pid):
+        return ps_replay_spec(model)
 
     def requires(self, cx):
         return [('valid', PS_valid(cx))]
@@ -542,6 +560,7 @@ DERIVED = ['._data', '._projection', '._filling', '._moment', '._rms']
 
 
 class Swap(Contract):
+    replay = lambda self, o, model, pid: ps_replay_spec(model)
     name = 'vfps::PhaseSpace::swap'
     tu = 'src/PS/PhaseSpace.cpp'
     params = ['other']
